@@ -70,14 +70,15 @@ TRACE_CFG = 'CONSTANTS Dev = {}\nINIT TInit\nNEXT TNext\nCHECK_DEADLOCK FALSE\n'
 
 
 def models(tier):
-    q = [dict(N=3, MaxCons=2, MaxChain=2, kinds=[kind('w', sfx=True), kind('('), kind('a&<', tag='$(')],
+    # (a token with two different kinds of brackets: every kind is replaced, not only the first that matches)
+    q = [dict(N=3, MaxCons=2, MaxChain=2, kinds=[kind('w', sfx=True), kind('(a]'), kind('a&<', tag='$(')],
               labels=['NP'], edges=['HD', '--'], profiles=[[], ['lemma'], ['edge', 'morph']]),
          dict(N=4, MaxCons=3, MaxChain=1, kinds=[kind('w', sfx=True)], labels=['S'], edges=['--'],
               profiles=[[]], only=['export', 'brackets', 'tigerxml', 'discobrackets']),
          dict(N=2, MaxCons=2, MaxChain=1, kinds=LENKINDS, labels=['S'], edges=['--'], profiles=[[]],
               only=['export', 'tigerxml'])]
     t = [dict(N=3, MaxCons=2, MaxChain=2,
-              kinds=[kind('w', sfx=True), kind('('), kind('a&<', tag='$('), kind(u'Üb"\'', sfx=True)],
+              kinds=[kind('w', sfx=True), kind('(a]'), kind('a&<', tag='$('), kind(u'Üb"\'', sfx=True)],
               labels=['S-X'], edges=['HD', '--'],
               profiles=[[], ['lemma'], ['morph'], ['edge', 'morph']]),
          dict(N=5, MaxCons=4, MaxChain=1, kinds=[kind('w', sfx=True)], labels=['S'], edges=['--'],
@@ -131,7 +132,7 @@ def run(prop, tier, seed, replay=None):
                 args.append(('W-%06d' % n_, T, sid, [(f, list(o), g) for (f, o, g) in jobs], None, seed + n_))
             # seeded random larger trees with exotic words, all formats
             pool = ['w', '(', ')', 'a&b', '<t>', '"q"', "it's", u'Übermaß', u'日本', 'x' * 7, 'y' * 8,
-                    'z' * 15, 'v' * 16, 'u' * 23, 't' * 24, 's' * 25, '#5000', '-LRB-', '[', '--', '%s',
+                    'z' * 15, 'v' * 16, 'u' * 23, 't' * 24, 's' * 25, '#5000', '-LRB-', '[', '--', '%s', 'author(s)', '{x]', '(1)',
                     u'10\u00a0000', u'z.\u202fB.', u'a\u3000b', u'\u00a0x', u'p\u2028q']
             for k in range(150 if tier == 'quick' else 2500):
                 T = treeio.random_tree(rnd, nmax=8 if tier == 'quick' else 11, maxcons=6, labels=('S', 'NP', 'VP-X', 'N"&<P'),
